@@ -38,6 +38,9 @@ pub struct SRunSpec {
     /// HEARTBEAT whose first number lies beyond the missing one (releases what was held back); empty = n x "D"
     #[serde(default)]
     pub script: Vec<String>,
+    /// "awaitq": reliable readers matched to the writer (0 | 1); n = writes queued before the wait is first polled
+    #[serde(default)]
+    pub readers: usize,
     pub sched: Vec<usize>,
 }
 
@@ -52,8 +55,42 @@ impl ArcWake for Flag {
     }
 }
 
+/// A `Waker` for the same recording `Flag` whose `clone()` is a yield point ("wc") of the cooperative scheduler.  Polling
+/// code registers interest by cloning the waker of its `Context`; stopping there lets the other thread act between
+/// whatever the code looked at before and the moment the waker is in place, wherever that is in the code.
+mod yielding_waker {
+    use super::Flag;
+    use futures::task::ArcWake;
+    use std::sync::Arc;
+    use std::task::{RawWaker, RawWakerVTable, Waker};
+
+    unsafe fn clone(p: *const ()) -> RawWaker {
+        rustdds::verif::sched::yp("wc");
+        Arc::increment_strong_count(p as *const Flag);
+        RawWaker::new(p, &VTABLE)
+    }
+    unsafe fn wake(p: *const ()) {
+        let a = Arc::from_raw(p as *const Flag);
+        ArcWake::wake_by_ref(&a);
+    }
+    unsafe fn wake_by_ref(p: *const ()) {
+        let a = std::mem::ManuallyDrop::new(Arc::from_raw(p as *const Flag));
+        ArcWake::wake_by_ref(&a);
+    }
+    unsafe fn drop(p: *const ()) {
+        Arc::decrement_strong_count(p as *const Flag);
+    }
+    static VTABLE: RawWakerVTable = RawWakerVTable::new(clone, wake, wake_by_ref, drop);
+
+    pub fn new(flag: Arc<Flag>) -> Waker {
+        unsafe { Waker::from_raw(RawWaker::new(Arc::into_raw(flag) as *const (), &VTABLE)) }
+    }
+}
+
 #[derive(Default)]
 struct Shared {
+    /// "awaitq": a reliable matched reader has not acknowledged everything that was written
+    owed: AtomicBool,
     stop: AtomicBool,
     inserted: AtomicUsize,
     delivered: AtomicUsize,
@@ -217,6 +254,82 @@ fn producer_writer(s: Arc<Sched>, sh: Arc<Shared>, tx: mpsc::Sender<rustdds::wit
     sched::leave();
 }
 
+/// "awaitq": the Writer behind a command queue that the application has already filled with `n` writes; `readers`
+/// reliable readers are matched and acknowledge everything once the Writer has worked off all the writes and the event
+/// loop is idle.
+fn producer_writer_q(s: Arc<Sched>, sh: Arc<Shared>, n: usize, readers: usize, tx: mpsc::Sender<rustdds::with_key::DataWriter<VSample>>) {
+    use crate::writer_drv::{reader_guid, PORT0, WRITER_GUID};
+    let qos = QosPolicyBuilder::new().reliability(Reliability::Reliable { max_blocking_time: Duration::from_secs(3600) }).history(History::KeepAll).build();
+    let (mut rig, dw) = WriterRig::new_with_datawriter(&qos, WRITER_GUID);
+    if readers > 0 {
+        rig.match_reader(reader_guid(1), true, PORT0 + 1);
+    }
+    // register with the (edge-triggered) poll before anything is sent
+    let _ = rig.command_ready();
+    tx.send(dw).unwrap();
+    sched::enter(0, s);
+    let mut ack_count = 0;
+    loop {
+        sched::yp("w_pop");
+        if sh.stop.load(Ordering::SeqCst) {
+            break;
+        }
+        if rig.command_ready() {
+            let _ = rig.process_commands();
+        } else if sh.owed.load(Ordering::SeqCst) && rig.history_sns().len() >= n {
+            // ACKNACK base = last + 1 from the matched reader, through the real receive path
+            let g = reader_guid(1);
+            let mut prefix = [0u8; 12];
+            prefix.copy_from_slice(&g[0..12]);
+            ack_count += 1;
+            let dg = wire::encode(&prefix, &[Sub::AckNack { reader: [g[12], g[13], g[14], g[15]], writer: [WRITER_GUID[12], WRITER_GUID[13], WRITER_GUID[14], WRITER_GUID[15]], set: wire::NumSet::empty(n as i64 + 1), count: ack_count, final_flag: true }]);
+            sh.owed.store(false, Ordering::SeqCst);
+            let _ = rig.receive(&dg);
+        }
+    }
+    sched::leave();
+}
+
+fn app_awaitq(s: Arc<Sched>, sh: Arc<Shared>, flag: Arc<Flag>, rx: mpsc::Receiver<rustdds::with_key::DataWriter<VSample>>, n: usize) {
+    let dw = rx.recv().unwrap();
+    // the burst of writes the event loop has not picked up yet
+    for i in 0..n.min(CAP) {
+        let _ = dw.write(VSample { key: 1, id: i as u32, body: vec![7] }, None);
+    }
+    let waker = yielding_waker::new(flag.clone());
+    let mut cx = Context::from_waker(&waker);
+    sched::enter(1, s);
+    {
+        let mut fut: Pin<Box<dyn Future<Output = _> + '_>> = Box::pin(dw.async_wait_for_acknowledgments());
+        let mut label = "e_poll";
+        'outer: loop {
+            sched::yp(label);
+            if sh.stop.load(Ordering::SeqCst) {
+                break;
+            }
+            match fut.as_mut().poll(&mut cx) {
+                Poll::Ready(r) => {
+                    // only "yes, acknowledged" counts as the completion the property talks about
+                    if matches!(r, Ok(true)) {
+                        sh.completed.fetch_add(1, Ordering::SeqCst);
+                    }
+                    break;
+                }
+                Poll::Pending => {
+                    if !park(&sh, &flag, "e_parked") {
+                        break 'outer;
+                    }
+                    label = "e_repoll";
+                }
+            }
+        }
+    }
+    while !sh.stop.load(Ordering::SeqCst) {
+        sched::yp("e_done");
+    }
+    sched::leave();
+}
+
 fn park(sh: &Shared, flag: &Flag, label: &'static str) -> bool {
     // returns false when told to stop
     loop {
@@ -266,6 +379,8 @@ fn app_mio(s: Arc<Sched>, sh: Arc<Shared>, rx: mpsc::Receiver<rustdds::with_key:
     } else {
         poll6.register(&dr, mio_06::Token(0), mio_06::Ready::readable(), mio_06::PollOpt::edge()).unwrap();
     }
+    // the synchronous take() has a second yield point, in front of its drain of the notifications
+    sched::enable("d0");
     sched::enter(1, s);
     'outer: loop {
         sched::yp("c_wait");
@@ -287,8 +402,9 @@ fn app_mio(s: Arc<Sched>, sh: Arc<Shared>, rx: mpsc::Receiver<rustdds::with_key:
         }
         sh.idle_polls.store(0, Ordering::SeqCst);
         // documented pattern: take until empty
+        // (take() itself stops at its two yield points: "d0" in front of the drain of the notifications, "t1" in front
+        // of the fill from the topic cache)
         loop {
-            sched::yp("c_take");
             if sh.stop.load(Ordering::SeqCst) {
                 break 'outer;
             }
@@ -456,9 +572,19 @@ pub fn run_one(run_no: usize, spec: &SRunSpec, out: &mut Vec<Value>) -> Vec<Vec<
     } else {
         let (tx, rx) = mpsc::channel();
         let (s0, sh0) = (s.clone(), sh.clone());
-        let h0 = std::thread::spawn(move || producer_writer(s0, sh0, tx));
         let (s1, sh1, f1, sc) = (s.clone(), sh.clone(), flag.clone(), spec.scenario.clone());
-        let h1 = std::thread::spawn(move || if sc == "awrite" { app_awrite(s1, sh1, f1, rx, n) } else { app_await(s1, sh1, f1, rx) });
+        let h0 = if spec.scenario == "awaitq" {
+            sh.owed.store(spec.readers > 0 && n > 0, Ordering::SeqCst);
+            let readers = spec.readers;
+            std::thread::spawn(move || producer_writer_q(s0, sh0, n, readers, tx))
+        } else {
+            std::thread::spawn(move || producer_writer(s0, sh0, tx))
+        };
+        let h1 = std::thread::spawn(move || match sc.as_str() {
+            "awrite" => app_awrite(s1, sh1, f1, rx, n),
+            "awaitq" => app_awaitq(s1, sh1, f1, rx, n),
+            _ => app_await(s1, sh1, f1, rx),
+        });
         (h0, h1)
     };
     // wait until both threads sit at "start"
@@ -477,7 +603,7 @@ pub fn run_one(run_no: usize, spec: &SRunSpec, out: &mut Vec<Value>) -> Vec<Vec<
         }
         match s.step(id) {
             Step::At(l) => {
-                out.push(json!({"ev":"Step","t":id,"at":l,"ins":sh.inserted.load(Ordering::SeqCst),"del":sh.delivered.load(Ordering::SeqCst),"done":sh.completed.load(Ordering::SeqCst),"wakes":flag.count.load(Ordering::SeqCst)}));
+                out.push(json!({"ev":"Step","t":id,"at":l,"ins":sh.inserted.load(Ordering::SeqCst),"del":sh.delivered.load(Ordering::SeqCst),"done":sh.completed.load(Ordering::SeqCst),"wakes":flag.count.load(Ordering::SeqCst),"owed":sh.owed.load(Ordering::SeqCst)}));
                 Some(l)
             }
             Step::Done => None,
@@ -500,7 +626,7 @@ pub fn run_one(run_no: usize, spec: &SRunSpec, out: &mut Vec<Value>) -> Vec<Vec<
     // quiescence: producer to idle, application as long as it is runnable
     let target_done = match spec.scenario.as_str() {
         "awrite" => CAP + n,
-        "await" => 1,
+        "await" | "awaitq" => 1,
         _ => 0,
     };
     let mut rounds = 0;
@@ -509,8 +635,9 @@ pub fn run_one(run_no: usize, spec: &SRunSpec, out: &mut Vec<Value>) -> Vec<Vec<
         let mut progress = false;
         // producer
         let before = (sh.inserted.load(Ordering::SeqCst), s.where_is(0));
+        let owed_before = sh.owed.load(Ordering::SeqCst);
         let l0 = do_step(0, out, &mut hung);
-        let producer_idle = if reader { l0 == Some("r_inject") && sh.inserted.load(Ordering::SeqCst) >= n && before.1 == Some("r_inject") && before.0 >= n } else { l0 == Some("w_pop") && before.1 == Some("w_pop") };
+        let producer_idle = if reader { l0 == Some("r_inject") && sh.inserted.load(Ordering::SeqCst) >= n && before.1 == Some("r_inject") && before.0 >= n } else { l0 == Some("w_pop") && before.1 == Some("w_pop") && !(owed_before || sh.owed.load(Ordering::SeqCst)) };
         if !producer_idle {
             progress = true;
             // the consumer gets fresh readiness checks after the producer's last action
@@ -534,7 +661,7 @@ pub fn run_one(run_no: usize, spec: &SRunSpec, out: &mut Vec<Value>) -> Vec<Vec<
     }
     let l1 = s.where_is(1);
     out.push(json!({"ev":"End","scenario":spec.scenario,"hung":hung,"app_at":l1.unwrap_or("running"),"woken":flag.woken.load(Ordering::SeqCst),
-        "ins":sh.inserted.load(Ordering::SeqCst),"del":sh.delivered.load(Ordering::SeqCst),"done":sh.completed.load(Ordering::SeqCst),"target":target_done,"n":n,"vals":vals,"wakes":flag.count.load(Ordering::SeqCst)}));
+        "ins":sh.inserted.load(Ordering::SeqCst),"del":sh.delivered.load(Ordering::SeqCst),"done":sh.completed.load(Ordering::SeqCst),"target":target_done,"n":n,"vals":vals,"wakes":flag.count.load(Ordering::SeqCst),"owed":sh.owed.load(Ordering::SeqCst)}));
     // teardown
     sh.stop.store(true, Ordering::SeqCst);
     if !hung {
@@ -560,30 +687,34 @@ pub fn main(mode: &str, opt: &HashMap<String, String>) -> i32 {
             let mut rng = StdRng::seed_from_u64(util::get(opt, "seed", 1u64) ^ 0xC13);
             let n: usize = util::get(opt, "runs", 100);
             let len: usize = util::get(opt, "events", 60);
-            let scen = ["stream", "mio6", "mio8", "awrite", "await", "nkstream", "nkbare"];
+            let scen = ["stream", "mio6", "mio8", "awrite", "await", "nkstream", "nkbare", "awaitq"];
             let specs: Vec<SRunSpec> = (0..n)
                 .map(|k| {
                     let sc = scen[k % scen.len()];
                     let nn = if sc == "await" { 1 } else { rng.gen_range(1..=4) };
+                    // writes queued before the wait: none, a few, one slot left, queue full
+                    let (nn, readers) = if sc == "awaitq" { ([0, 1, 3, CAP - 1, CAP, CAP][rng.gen_range(0..6)], rng.gen_range(0..2usize)) } else { (nn, 0) };
                     let l = if sc == "awrite" { len + 40 } else { len };
                     // long random schedules, biased in bursts so that both sides get stretches of steps
                     let mut sched = vec![];
                     while sched.len() < l {
                         let t = rng.gen_range(0..2);
-                        for _ in 0..rng.gen_range(1..4) {
+                        // "awaitq": now and then the writer thread works off the whole queue in one stretch
+                        let burst = if sc == "awaitq" && t == 0 && rng.gen_bool(0.3) { rng.gen_range(4..=2 * CAP + 4) } else { rng.gen_range(1..4) };
+                        for _ in 0..burst {
                             sched.push(t);
                         }
                     }
                     let kinds: Vec<String> = if sc.starts_with("nk") { (0..rng.gen_range(2..=5)).map(|_| if rng.gen_bool(0.5) { "V".to_string() } else { "D".to_string() }).collect() } else { vec![] };
                     let nn = if kinds.is_empty() { nn } else { kinds.len() };
                     let script: Vec<String> = if matches!(sc, "stream" | "mio6" | "mio8") && rng.gen_bool(0.5) { (0..rng.gen_range(2..=5)).map(|_| ["D", "O", "H"][rng.gen_range(0..3)].to_string()).collect() } else { vec![] };
-                    SRunSpec { scenario: sc.into(), n: nn, kinds, script, sched }
+                    SRunSpec { scenario: sc.into(), n: nn, kinds, script, readers, sched }
                 })
                 .collect();
             util::run_parallel(opt, specs, run_one)
         }
         "syncwait" => {
-            let specs: Vec<SRunSpec> = (0..util::get(opt, "runs", 10usize)).map(|k| SRunSpec { scenario: "syncwait".into(), n: k % 5, kinds: vec![], script: vec![], sched: vec![] }).collect();
+            let specs: Vec<SRunSpec> = (0..util::get(opt, "runs", 10usize)).map(|k| SRunSpec { scenario: "syncwait".into(), n: k % 5, kinds: vec![], script: vec![], readers: 0, sched: vec![] }).collect();
             util::run_parallel(opt, specs, run_one)
         }
         _ => 2,
